@@ -4,6 +4,7 @@
 From Coq Require Import ZArith List Lia Bool.
 From SFGen Require Import Gen_Enums.
 From SF Require Import Api ApiProofs.
+From SF Require Dpcm DpcmProofs.
 Import ListNotations.
 Local Open Scope Z_scope.
 
@@ -50,6 +51,20 @@ Theorem reads_after_seek_start_at_target : forall k w rs s,
   let '(s2, l) := do_reads s1 rs in l = slice (data s) (k * ch s) (m * ch s) /\ rcur s2 = k + m.
 Proof. exact seek_then_read. Qed.
 
+(** the DPCM codec of src/xi.c (its own seek function, dpcm_seek: rewind, decode and discard): reads in any partition deliver
+    the one sequential stream, and with a clear predictor (every fresh handle; every handle for target 0) the reads after a
+    seek to k are frames k, k+1, ... of it.  The remaining case is stated too: a stale predictor and k > 0 breaks it --
+    dpcm_seek does not clear last_16 on that branch; unreachable through the API of the pinned tree (xi_open marks XI as not
+    seekable, RDWR switches call it with target 0 or in write mode, which it refuses), K-tied by calling it directly. *)
+Theorem dpcm_reads_are_partition_independent : forall calls l, Dpcm.run_calls Dpcm.dles2s l calls = Dpcm.dles2s l (concat calls).
+Proof. exact DpcmProofs.dles2s_calls. Qed.
+Theorem dpcm16_reads_after_seek_are_sequential : forall cs k, Dpcm.seek_then_read16 0 cs k = skipn k (fst (Dpcm.dles2s 0 cs)).
+Proof. exact DpcmProofs.dpcm16_seek_is_sequential. Qed.
+Theorem dpcm8_reads_after_seek_are_sequential : forall cs k, Dpcm.seek_then_read8 0 cs k = skipn k (fst (Dpcm.dsc2s 0 cs)).
+Proof. exact DpcmProofs.dpcm8_seek_is_sequential. Qed.
+Theorem dpcm16_seek_stale_predictor_refuted : exists l cs k, Dpcm.seek_then_read16 l cs k <> skipn k (fst (Dpcm.dles2s 0 cs)).
+Proof. exact DpcmProofs.dpcm16_seek_stale_predictor_refuted. Qed.
+
 Example c06_witness :
   let s := opened c_SFM_READ 1 [10;11;12;13;14;15] 6 in
   wf s /\ snd (do_reads s [(true, 2); (false, 3); (true, 5)]) = [10;11;12;13;14;15]
@@ -61,3 +76,7 @@ Print Assumptions seek_selects_pointers.
 Print Assumptions seek_cur_zero_reports_next_frame.
 Print Assumptions reads_are_partition_independent.
 Print Assumptions reads_after_seek_start_at_target.
+Print Assumptions dpcm_reads_are_partition_independent.
+Print Assumptions dpcm16_reads_after_seek_are_sequential.
+Print Assumptions dpcm8_reads_after_seek_are_sequential.
+Print Assumptions dpcm16_seek_stale_predictor_refuted.
